@@ -237,7 +237,7 @@ func streamHCheck(t *testing.T, o *Out) {
 	checkgroup.DefaultFactory = newSeq
 	defer func() { checkgroup.DefaultFactory = oldFactory }()
 	objs := []string{"a", "b", "c", "d", "ü:#@", ""}
-	subs := []string{"alice", "bob", "eve", ""}
+	subs := []string{"alice", "bob", "eve", "", "Group:zz#members", "Group:a#members"}
 	for i := 0; i < n; i++ {
 		if i%10 == 0 {
 			// the full configuration while the state is written (and for most blocks of ten
@@ -264,6 +264,7 @@ func streamHCheck(t *testing.T, o *Out) {
 			}
 			// a chain of nested groups so that answers need two or more indirections
 			alice, gmem := "alice", "members"
+			lookalike := "Group:zz#members" // a subject ID spelled like a subject set
 			ts = append(ts,
 				&ketoapi.RelationTuple{Namespace: "Doc", Object: "a", Relation: "viewers", SubjectSet: &ketoapi.SubjectSet{Namespace: "Group", Object: "a", Relation: gmem}},
 				&ketoapi.RelationTuple{Namespace: "Doc", Object: "b", Relation: "viewers", SubjectSet: &ketoapi.SubjectSet{Namespace: "Group", Object: "a", Relation: gmem}},
@@ -277,6 +278,7 @@ func streamHCheck(t *testing.T, o *Out) {
 				&ketoapi.RelationTuple{Namespace: "Group", Object: "d3", Relation: gmem, SubjectSet: &ketoapi.SubjectSet{Namespace: "Group", Object: "d4", Relation: gmem}},
 				&ketoapi.RelationTuple{Namespace: "Group", Object: "d4", Relation: gmem, SubjectSet: &ketoapi.SubjectSet{Namespace: "Group", Object: "d5", Relation: gmem}},
 				&ketoapi.RelationTuple{Namespace: "Group", Object: "d5", Relation: gmem, SubjectID: &alice},
+				&ketoapi.RelationTuple{Namespace: "Doc", Object: "b", Relation: "viewers", SubjectID: &lookalike},
 				&ketoapi.RelationTuple{Namespace: "Team", Object: "a", Relation: gmem, SubjectID: &alice},
 				&ketoapi.RelationTuple{Namespace: "Doc", Object: "c", Relation: "viewers", SubjectSet: &ketoapi.SubjectSet{Namespace: "Team", Object: "a", Relation: gmem}})
 			its, err := env.reg.Mapper().FromTuple(env.ctx, ts...)
@@ -315,6 +317,22 @@ func streamHCheck(t *testing.T, o *Out) {
 		for j := range entries {
 			tt := env.genTuple(r, objs, subs)
 			switch {
+			case j > 0 && r.Intn(6) == 0:
+				// a look-alike of an earlier entry: a subject ID that is spelled like a subject set (or
+				// the other way round) - the two print alike, they are different relationships
+				prev := entries[r.Intn(j)].t
+				cp := *prev
+				switch {
+				case prev.SubjectSet != nil:
+					sid := prev.SubjectSet.String()
+					cp.SubjectSet, cp.SubjectID = nil, &sid
+					tt = &cp
+				case prev.SubjectID != nil:
+					if ss, err := (&ketoapi.SubjectSet{}).FromString(*prev.SubjectID); err == nil {
+						cp.SubjectID, cp.SubjectSet = nil, ss
+						tt = &cp
+					}
+				}
 			case j > 0 && r.Intn(3) == 0:
 				// duplicates within one batch
 				tt = entries[r.Intn(j)].t
